@@ -264,6 +264,22 @@ def handle (st : Session) (line : String) : Session × String :=
     match x.toNat?, (splitList marks).mapM (·.toNat?) with
     | some x, some ms => (st, toString (locatorSpec ms x).toNat)
     | _, _ => (st, "bad-op")
+  | ["C", "cauchy", rate, k, r, sb, shards] =>
+    -- recovery shards by the closed-form generator matrix (spec level)
+    match rate, k.toNat?, r.toNat?, sb.toNat?, parseShards shards with
+    | "high", some k, some r, some sb, some l => (st, "ok " ++ showShards (cauchyEncodeBytes .high k r sb l))
+    | "low", some k, some r, some sb, some l => (st, "ok " ++ showShards (cauchyEncodeBytes .low k r sb l))
+    | _, _, _, _, _ => (st, "bad-op")
+  | ["C", "scale", c, shard] =>
+    match c.toNat?, parseHex shard with
+    | some c, some b => (st, toHex (scaleBytes (BitVec.ofNat 16 c) b.size b))
+    | _, _ => (st, "bad-op")
+  | ["T", "lcheval", x, coeffs] =>
+    match x.toNat?, parseSymbols coeffs with
+    | some x, some c => (st, toString (lchEval c (BitVec.ofNat 16 x)).toNat)
+    | _, _ => (st, "bad-op")
+  | ["T", "consts"] =>
+    (st, s!"{0x10000 + polyLow.toNat} " ++ ",".intercalate (cantorBasis.map fun x => toString x.toNat))
   | ["T", "cauchy", rate, k, r, j, i] =>
     match rate, k.toNat?, r.toNat?, j.toNat?, i.toNat? with
     | "high", some k, some r, some j, some i => (st, toString (cauchyHigh k r j i).toNat)
